@@ -447,7 +447,7 @@ Proof.
   rewrite Hrun in H.
   destruct Hmisc as (M1 & M2 & M3 & M4 & M5 & M6 & M7 & M8 & M9 & M10 & M11).
   assert (Hres : exists dw' rw', s' = set_wakers s1 dw' rw' w1 /\ r = FlOk fb).
-  { destruct (0 <? fb); injection H as <- <- <-; eauto. }
+  { destruct (0 <? fp); injection H as <- <- <-; eauto. }
   destruct Hres as (dw' & rw' & -> & ->).
   unfold s0 in *; rsimpl.
   split.
@@ -979,4 +979,38 @@ Lemma model_trace_c04_ok max_rx max_in ops :
   c04_ok max_rx max_in (rx_trace (rx_build max_rx max_in) ops) = true.
 Proof.
   intros Hi Hr Hok. unfold c04_ok. apply trace_ok_gen; auto using build_inv.
+Qed.
+
+(* D8 repaired: a flush that hands at least one item (bytes OR the EOF marker) to the user queue
+   fires the reader's waker when one is registered *)
+Lemma flush_loop_count : forall fuel s w fb fp s' w' fb' fp',
+  flush_loop fuel s w fb fp = Some (s', w', fb', fp') ->
+  Z.of_nat (length (q s')) = Z.of_nat (length (q s)) + (fp' - fp) /\ fp <= fp' /\
+  reader_waker s' = reader_waker s.
+Proof.
+  induction fuel as [|fuel IH]; intros s w fb fp s' w' fb' fp'; cbn [flush_loop].
+  - intro H; injection H as <- _ _ <-. repeat split; lia.
+  - destruct (filled_front s =? 0); [intro H; injection H as <- _ _ <-; repeat split; lia|].
+    destruct (ooq_data s) as [|m rest]; [discriminate|].
+    destruct (w <? _); [intro H; injection H as <- _ _ <-; repeat split; lia|].
+    destruct (reader_dropped s); [intro H; injection H as <- _ _ <-; repeat split; lia|].
+    destruct (_ <? _); [discriminate|].
+    intro H. apply IH in H. destruct H as (H1 & H2 & H3).
+    unfold pop_front_state in *; cbn [q reader_waker] in *. rewrite app_length in H1. cbn [length] in H1.
+    repeat split; [lia|lia|exact H3].
+Qed.
+
+Lemma rx_flush_wakes_reader s s' fb w :
+  rx_flush s = (s', FlOk fb, w) -> reader_waker s = true ->
+  (length (q s) < length (q s'))%nat ->
+  w = [WakeReader] /\ reader_waker s' = false.
+Proof.
+  unfold rx_flush. intros H Hw Hlen.
+  set (s0 := set_wakers s _ (reader_waker s) (last_remaining_rx_window s)) in *.
+  destruct (flush_loop _ s0 _ 0 0) as [[[[s1 w1] fb1] fp1]|] eqn:E; [|discriminate].
+  destruct (flush_loop_count _ _ _ _ _ _ _ _ _ E) as (H1 & H2 & H3).
+  unfold s0 in H1, H3; cbn [set_wakers q reader_waker] in H1, H3.
+  destruct (Z.ltb_spec 0 fp1) as [Hp|Hp].
+  - injection H as <- _ <-. rewrite H3, Hw. cbn [set_wakers reader_waker]. auto.
+  - injection H as <- _ _. cbn [set_wakers q] in Hlen. lia.
 Qed.
